@@ -314,6 +314,14 @@ class CvtToFuzzyCurveZScoreSpec(CommandSpec):
 
 @spec("CvtToFuzzyMeanToMid")
 class CvtToFuzzyMeanToMidSpec(CommandSpec):
+    def admissible(self, case):
+        # the mean-to-mid control points need values strictly below and above the (zero-filtered) mean
+        inp = case["inputs"]["InFieldName"]
+        vals = [v for v, m in zip(inp["data"], inp["mask"]) if not m]
+        if case["params"].get("IgnoreZeros"):
+            vals = [v for v in vals if v != 0]
+        return len(set(vals)) >= 2
+
     uses_stats = True
 
     def requires(self, x):
